@@ -1,18 +1,9 @@
-"""Per-property check specifications (see vlib.standard_check)."""
-KERNEL = "Coq 8.16.1 kernel (coqc; vm_compute used for the in-Coq evaluation of the model on the harness cases and for witnesses; coqchk re-check in the thorough tier); no native_compute"
-CORR_TB = "unverified correspondence machinery: Go driver + generator (harness/cmd), Python glue (lib/vlib.py) that writes cases.v and parses coqc's output"
-
+"""Per-property check specifications: one module lib/specs/<id>.py each, defining SPEC (see
+vlib.standard_check for the keys) and optionally SPEC["run"] = custom function(spec, tier, seed)."""
+import importlib, os, sys
+_d = os.path.join(os.path.dirname(os.path.abspath(__file__)), "specs")
+sys.path.insert(0, _d)
 SPECS = {}
-
-SPECS["C14"] = dict(
-    id="C14", corr="Corr.C14", driver="h_c14", overlay=False,
-    targets=["Properties/C14.vo", "Corr/C14.vo"],
-    args=lambda tier, seed: ["-seed", seed, "-n", 6000 if tier == "quick" else 150000],
-    search_args=lambda seed: ["-seed", seed, "-n", 40000],
-    shard=8000,
-    patterns={2: "C14-half", 3: "C14-empty"},
-    rule="boundary lattice (11 bases x 16 distances) then seeded random operands (3/4 boundary values, 1/4 uniform) for LessThan/LessThanEq/InRange/InWindow/Overlap/Add/Size/UpdateForward of pkg/seqnum; a case is non-trivial when operands differ / sizes are non-zero (tag 1 = no wrap, 2 = range wraps through 0); distinct = distinct case lines",
-    trusted_base=[KERNEL, CORR_TB, "Print Assumptions: every C14 theorem is closed under the global context (no axioms)",
-                  "modelled, not verified: pkg/seqnum/seqnum.go (hand-written Gallina model Model/Seqnum.v, tied by the differential run)"],
-    assumptions=["Go uint32 arithmetic wraps modulo 2^32 and int32(x)<0 means x>=2^31 (written into the model)"],
-)
+for _f in sorted(os.listdir(_d)):
+    if _f.startswith("C") and _f.endswith(".py"):
+        SPECS[_f[:-3]] = importlib.import_module(_f[:-3]).SPEC
